@@ -183,6 +183,62 @@ theorem rank_lt (T N : Nat) (c : List Nat × Nat) (h : Ok T N c) (hi : c.2 ≤ N
     rw [Nat.succ_mul] at this; exact this
   omega
 
+theorem applyAll_append (c : List Nat × Nat) (a b : List Move) :
+    applyAll c (a ++ b) = applyAll (applyAll c a) b := by
+  induction a generalizing c with
+  | nil => rfl
+  | cons m a ih => exact ih _
+
+theorem legalAll_append (T N : Nat) (c : List Nat × Nat) (a b : List Move) :
+    legalAll T N c (a ++ b) ↔ legalAll T N c a ∧ legalAll T N (applyAll c a) b := by
+  induction a generalizing c with
+  | nil => simp [legalAll, applyAll]
+  | cons m a ih =>
+    show legal T N c m ∧ legalAll T N (apply c m) (a ++ b) ↔ _
+    rw [ih]; simp [legalAll, applyAll, and_assoc]
+
+theorem yields_append (a b : List Move) : yields (a ++ b) = yields a + yields b := by
+  induction a with
+  | nil => simp [yields]
+  | cons m a ih => cases m <;> simp [yields, ih] <;> omega
+
+theorem ok_applyAll (T N : Nat) (c : List Nat × Nat) (ms : List Move) (h : Ok T N c)
+    (hl : legalAll T N c ms) : Ok T N (applyAll c ms) := by
+  induction ms generalizing c with
+  | nil => exact h
+  | cons m ms ih => exact ih _ (move_rank T N c m h hl.1).1 hl.2
+
+/-- the rank is below `N²` wherever the index stands -/
+theorem rank_lt' (T N : Nat) (c : List Nat × Nat) (h : Ok T N c) : rank T N c < N * N := by
+  obtain ⟨l, i⟩ := c
+  have hpl := pos_lt_length T l h.mem
+  have hlen : l.length ≤ N := h.len
+  have hd : (if i ≤ pos T l then pos T l - i else N - i + pos T l) < N := by
+    split <;> omega
+  simp only [rank]
+  have : pos T l * N + N ≤ N * N := by
+    have : (pos T l + 1) * N ≤ N * N := Nat.mul_le_mul_right N (by omega)
+    rw [Nat.succ_mul] at this; exact this
+  omega
+
+/-- a duplicate-free list of numbers below `n` has at most `n` elements -/
+theorem nodup_bounded (n : Nat) : ∀ l : List Nat, l.Nodup → (∀ x ∈ l, x < n) → l.length ≤ n := by
+  induction n with
+  | zero =>
+    intro l _ h
+    cases l with
+    | nil => simp
+    | cons a l => exact absurd (h a (by simp)) (by omega)
+  | succ n ih =>
+    intro l hnd h
+    have h1 := ih (l.erase n) (hnd.erase n) (fun x hx => by
+      have hx' := (List.Nodup.mem_erase_iff hnd).1 hx
+      have := h x hx'.2
+      have := hx'.1
+      omega)
+    have := List.length_erase (a := n) (l := l)
+    split at this <;> omega
+
 instance (T N : Nat) (c : List Nat × Nat) (m : Move) : Decidable (legal T N c m) := by
   obtain ⟨l, i⟩ := c
   cases m <;> unfold legal <;> infer_instance
